@@ -6,11 +6,13 @@
 //! Request line (space separated `key=value`, lists are `,`-separated with
 //! run-length tokens `v*count`, `_` = empty list, `-` = absent):
 //!
-//! `g kern=<name> sat=<0|1> path=<gemm|gemv> pre=<0..3> lay=<xy> m= n= k= za= zb= c0= a= b=`
+//! `g kern=<name> sat=<0|1> path=<gemm|gemv> pre=<0..3> lay=<xy> cb= m= n= k= za= zb= c0= a= b=`
 //!
 //! * `sat`  – the kernel's `may_saturate()` answer;
 //! * `path` – `gemv` iff the vector-matrix fast path is taken (m = 1, nothing prepacked);
 //! * `pre`  – bit 0: A prepacked, bit 1: B prepacked (`GemmExecutor::prepack_*`);
+//! * `cb`   – column block size of the gemv path (`max(ceil(N/threads),128)`), used by the model to
+//!   decide which columns are handled by SIMD steps;
 //! * `lay`  – storage layout of A and B (r = row major, t = transposed, s = strided); ignored by the model;
 //! * `za`/`zb` – per-row / per-column zero points or `-`;
 //! * `c0`   – initial output (beta = 1) or `-` (beta = 0);
@@ -177,6 +179,16 @@ fn run_impl(g: &GemmExecutor<u8, i8, i32>, c: &Case) -> Result<Vec<i32>, String>
     }
 }
 
+/// Column block size of `rten_gemm::gemv`: `max(ceil(N / rayon threads), 128)`.
+fn gemv_col_block(n: usize) -> usize {
+    let threads = std::env::var("RAYON_NUM_THREADS")
+        .ok()
+        .and_then(|v| v.parse::<usize>().ok())
+        .filter(|&t| t > 0)
+        .unwrap_or_else(|| std::thread::available_parallelism().map(|p| p.get()).unwrap_or(1));
+    n.div_ceil(threads).max(128)
+}
+
 fn kern_class(name: &str) -> &'static str {
     if name.contains("avx512") {
         "avx512"
@@ -196,13 +208,14 @@ fn one(out: &mut Out, kernels: &[(String, GemmExecutor<u8, i8, i32>)], c: &Case)
         let sat = g.may_saturate();
         let path = if c.m == 1 && c.pre == 0 { "gemv" } else { "gemm" };
         let req = format!(
-            "g kern={} sat={} path={} pre={} lay={}{} m={} n={} k={} za={} zb={} c0={} a={} b={}",
+            "g kern={} sat={} path={} pre={} lay={}{} cb={} m={} n={} k={} za={} zb={} c0={} a={} b={}",
             kern_class(name),
             sat as u8,
             path,
             c.pre,
             c.lay_a as char,
             c.lay_b as char,
+            gemv_col_block(c.n),
             c.m,
             c.n,
             c.k,
@@ -474,6 +487,38 @@ fn structured_cases(rng: &mut Rng, thorough: bool) -> Vec<Case> {
     v
 }
 
+/// Vector-matrix (gemv) shapes aimed at the SIMD/scalar split of `simd_int8_gemv`: column counts
+/// around one and two SIMD vectors (32 / 64 bytes) and the 128-column block, K around the 4-tile,
+/// the 8 / 512 chunk and one SIMD vector, every B layout, values outside the reduced range.
+fn gemv_cases(rng: &mut Rng, thorough: bool) -> Vec<Case> {
+    let mut v = vec![];
+    let mut push = |rng: &mut Rng, n: usize, k: usize, class: u64, lay_b: u8, zp: bool| {
+        let (a, b) = gen_vals(rng, class, 1, n, k);
+        let za = if zp { Some(vec![*rng.pick(&[0u8, 255, 128, 7])]) } else { None };
+        let zb = if zp { Some((0..n).map(|i| ((i * 29 + 5) as u8) as i8).collect()) } else { None };
+        let c0 = if rng.chance(1, 8) { Some((0..n).map(|_| rng.range_i64(-1000, 1000) as i32).collect()) } else { None };
+        v.push(Case { m: 1, n, k, a, b, za, zb, c0, lay_a: b'r', lay_b, pre: 0, tag: "gemv" });
+    };
+    let ks: &[usize] = if thorough { &[1, 2, 3, 4, 5, 7, 8, 9, 12, 13, 16, 17, 33, 70] } else { &[1, 3, 4, 5, 8, 9, 13, 33, 70] };
+    for &lay_b in &[b'r', b't', b's', b'p'] {
+        for &n in &[31usize, 32, 33, 64, 65, 97, 130, 200] {
+            for (i, &k) in ks.iter().enumerate() {
+                push(rng, n, k, if i % 2 == 0 { 3 } else { 4 }, lay_b, i % 3 != 0);
+                if thorough {
+                    push(rng, n, k, 2, lay_b, true);
+                }
+            }
+        }
+        for &n in &[1usize, 2, 33, 65] {
+            for &k in &[63usize, 64, 65, 129, 511, 512, 513, 600] {
+                push(rng, n, k, 3, lay_b, true);
+                push(rng, n, k, 4, lay_b, false);
+            }
+        }
+    }
+    v
+}
+
 /// Exhaustive pair sweep for the saturating pairwise sum: K = 2, one output,
 /// every u8 `a` against selected `b`, and every i8 `b` against selected `a`.
 fn pair_cases(thorough: bool) -> Vec<Case> {
@@ -522,6 +567,9 @@ fn run(args: &Args) {
         one(&mut out, &kernels, &c);
     }
     for c in pair_cases(args.thorough) {
+        one(&mut out, &kernels, &c);
+    }
+    for c in gemv_cases(&mut rng, args.thorough) {
         one(&mut out, &kernels, &c);
     }
     let n = if args.thorough { 20_000 } else { 2_500 };
